@@ -36,7 +36,7 @@ def rebuild(make, apply, ops, hist):
 
 
 def _level_task(hists):
-    make, apply, ops, canon, describe = _W["spec"]
+    make, apply, ops, canon, describe, lookahead = _W["spec"]
     part = Part()
     out = []
     for h in hists:
@@ -56,13 +56,26 @@ def _level_task(hists):
             k = digest(c)
             if k == pre:
                 part.count("self_loops")
+                # A step that leaves the canonical state unchanged (a rejected call, a query) is merged
+                # with its source by the search.  That is only sound if the two really have the same
+                # futures - which is what the property claims and a defect may break through state the
+                # canonical form does not see.  So, for short histories, every operation is executed and
+                # judged once more AFTER the self-loop (its successors are not added to the frontier).
+                if len(h) < lookahead:
+                    h1 = h + (oi,)
+                    for op2 in ops:
+                        sys2 = rebuild(make, apply, ops, h1)
+                        if apply(sys2, op2, part, h1) is not False:
+                            part.count("transitions")
+                            part.count("lookahead_transitions")
             out.append((k, h + (oi,)))
     return part, out
 
 
-def bfs(ctx, make, apply, ops, canon, max_depth, describe=None, determinism=48):
-    """Returns dict(states, transitions, fixpoint, depth, deepest)."""
-    _W["spec"] = (make, apply, ops, canon, describe)
+def bfs(ctx, make, apply, ops, canon, max_depth, describe=None, determinism=48, lookahead=0):
+    """Returns dict(states, transitions, fixpoint, depth, deepest).
+    lookahead=L: after every self-loop reached by a history shorter than L all operations are judged once more."""
+    _W["spec"] = (make, apply, ops, canon, describe, lookahead)
     root = make()
     seen = {digest(canon(root))}
     frontier = [()]
